@@ -123,6 +123,14 @@ def run(ctx: Context) -> None:
         from .common import purity_obligations
         purity_obligations(ctx, 'R10.6', ti, [da], "_to_index_array")
 
+    with ctx.section('R10.1 start index'):
+        from . import infra as _infra
+        _infra.start_index_source(ctx, 'R10.1')
+    with ctx.section('R10.2 fill range'):
+        _infra.face_edge_fill_range(ctx, 'R10.2')
+    with ctx.section('R10.5 counts'):
+        _infra.mesh_counts(ctx, 'R10.5')
+
     # ------------------------------------------------------------------ R10.2
     with ctx.section('R10.2'):
         for tab in TABLES:
@@ -351,7 +359,9 @@ def run(ctx: Context) -> None:
             size_two = any(isinstance(t, ast.Compare) and isinstance(t.ops[0], ast.Eq) and pol is True and const_value(t.comparators[0], None) == 2
                            and norm_text(t.left) == f"self.dataset.sizes[{norm_text(r.value)}]" for t, pol in conds)
             from_edge_table = twflow.reaches(r.value, lambda n: isinstance(n, ast.Constant) and n.value in ('edge_node_connectivity', 'edge_face_connectivity'))
-            if not_edge and size_two and from_edge_table:
+            has_edges = any(norm_text(t) == 'self.has_edge_dimension' and pol is True for t, pol in conds)
+            declared_only = any("'edge_dimension' in" in norm_text(t) for t, pol in conds)
+            if not_edge and size_two and from_edge_table and has_edges and not declared_only:
                 pref = r
         ok = pref is not None and len(scan) == 1 and pref.lineno < scan[0].lineno and std is not None and std.lineno < pref.lineno
         ctx.check('R10.5', ok, "when the mesh does not use the name 'Two', the pair dimension is the size-2 dimension of a supplied edge table other than the edge dimension; only then any dimension of size 2", tw,
